@@ -94,6 +94,20 @@ theorem wf_addEdgeCore (c : Content κ) (k : κ) (w : W) (md : Meta) (h : WF c) 
     simp only [hw, Bool.false_eq_true, ↓reduceIte]
     exact h.unit hw (k, v) (C05AL.mem_of_get? _ _ _ hg)
 
+/-- `WF` speaks of the weighted flag, the nodes and the hyperedges only -/
+theorem wf_aux (c c' : Content κ) (h : WF c) (hw : c'.weighted = c.weighted) (hn : c'.nodes = c.nodes)
+    (he : c'.edges = c.edges) : WF c' := by
+  refine ⟨?_, ?_, ?_, ?_⟩
+  · simp only [nodesOf, hn]; exact h.nodes_nodup
+  · simp only [keysOf, he]; exact h.keys_nodup
+  · intro k hk m hm
+    simp only [keysOf, he] at hk
+    simp only [nodesOf, hn]
+    exact h.members_in k hk m hm
+  · intro hw' e hee
+    rw [hw] at hw'; rw [he] at hee
+    exact h.unit hw' e hee
+
 theorem wf_apply? (c c' : Content κ) (op : Op κ) (h : WF c) (e : apply? c op = some c') : WF c' := by
   cases op with
   | addNode n md => simp only [apply?, Option.some.injEq] at e; subst e; exact wf_addNode c n md h
@@ -153,6 +167,23 @@ theorem wf_apply? (c c' : Content κ) (op : Op κ) (h : WF c) (e : apply? c op =
       simp only [hg, Option.some.injEq] at e; subst e
       apply wf_setEdge c k _ h ((C05AL.mem_keys_iff _ _).2 (by simp [hg]))
       intro hw; exact h.unit hw (k, x) (C05AL.mem_of_get? _ _ _ hg)
+  | setIncMeta k st n md =>
+    simp only [apply?, setIncMeta] at e
+    split at e
+    · cases e; exact wf_aux c _ h rfl rfl rfl
+    · cases e
+  | setIncAttr k st n a v =>
+    simp only [apply?, setIncAttr] at e
+    split at e
+    · cases e
+    · cases e; exact wf_aux c _ h rfl rfl rfl
+  | addEmptyEdge name md =>
+    simp only [apply?, addEmptyEdge] at e
+    split at e
+    · cases e
+    · cases e; exact wf_aux c _ h rfl rfl rfl
+  | setHyperMeta md => simp only [apply?, Option.some.injEq] at e; subst e; exact wf_aux c _ h rfl rfl rfl
+  | setHyperAttr a v => simp only [apply?, Option.some.injEq] at e; subst e; exact wf_aux c _ h rfl rfl rfl
 
 theorem wf_step (c : Content κ) (op : Op κ) (h : WF c) : WF (step c op) := by
   unfold step
